@@ -22,9 +22,9 @@ inductive Mv where
 /-- net change of balance `(a, d)` caused by one move -/
 def Mv.bal (a : Addr) (d : Denom) : Mv → Int
   | .xfer src dst d' n =>
-    (if (dst, d') = (a, d) then (n : Int) else 0) - (if (src, d') = (a, d) then (n : Int) else 0)
-  | .mint dst d' n => if (dst, d') = (a, d) then (n : Int) else 0
-  | .burn src d' n => - (if (src, d') = (a, d) then (n : Int) else 0)
+    (if dst = a ∧ d' = d then (n : Int) else 0) - (if src = a ∧ d' = d then (n : Int) else 0)
+  | .mint dst d' n => if dst = a ∧ d' = d then (n : Int) else 0
+  | .burn src d' n => - (if src = a ∧ d' = d then (n : Int) else 0)
 
 /-- net change of the supply of `d` caused by one move -/
 def Mv.sup (d : Denom) : Mv → Int
@@ -32,8 +32,13 @@ def Mv.sup (d : Denom) : Mv → Int
   | .mint _ d' n => if d' = d then (n : Int) else 0
   | .burn _ d' n => - (if d' = d then (n : Int) else 0)
 
-def netBal (mvs : List Mv) (a : Addr) (d : Denom) : Int := (mvs.map (Mv.bal a d)).foldl (· + ·) 0
-def netSup (mvs : List Mv) (d : Denom) : Int := (mvs.map (Mv.sup d)).foldl (· + ·) 0
+def netBal : List Mv → Addr → Denom → Int
+  | [], _, _ => 0
+  | m :: r, a, d => m.bal a d + netBal r a d
+
+def netSup : List Mv → Denom → Int
+  | [], _ => 0
+  | m :: r, d => m.sup d + netSup r d
 
 /-- the whole balance sheet and all supplies changed by exactly the net effect of `mvs` -/
 def Ledger (pre post : Bank) (mvs : List Mv) : Prop :=
